@@ -44,6 +44,7 @@ def run_scripted(case, log_level=None, callbacks=True, collect=None, subclass_ho
     kw = dict(active_tol=case["atol"], opt_tol=case["otol"], local_infeas_tol=case["itol"],
               iteration_limit=case["iter_limit"], time_limit=(INF if case["time_limit"] is None else case["time_limit"]),
               obj_lower_limit=case["obj_lower"], lamb_init=case["lamb_init"], lamb_max=case["lamb_max"],
+              lamb_min=case.get("lamb_min", 1e-12),
               penalty_update=PenaltyUpdate[case["policy"]], rho=case["rho"],
               display_interval=(INF if case["interval"] is None else case["interval"]),
               collect_path=case["collect"] if collect is None else collect)
@@ -187,7 +188,7 @@ def gen_case(g, tier):
     return {"spec": spec.to_json(), "sc": sc, "atol": atol, "otol": otol, "itol": itol, "iter_limit": il,
             "time_limit": tl, "obj_lower": r.choice([-1e10, -1e10, -1e10, -1e10, -8.0, 0.0, 64.0]),
             "lamb_init": lamb_init, "lamb_max": lamb_max, "policy": policy,
-            "rho": rho,
+            "rho": rho, "lamb_min": r.choice([1e-12, 1e-12, 0.25, 1.0, 8.0]),     # the controllers' business, not the loop's
             "interval": interval, "collect": r.random() < 0.6, "script": script, "clock": clock,
             "x0": x0, "y0": y0, "fmt": r.choice(["coo", "csr", "csc"])}
 
